@@ -127,7 +127,8 @@ class ThreadHarness:
                 return prog
             if kind == "fail":
                 # "fail:x" refused at once; "fail:x:g1" refused once one other thread is queued in the pool (a slow connect failure)
-                w.env.refuse[f"{origin}.example"] = next((int(o[1:]) for o in opts if o.startswith("g")), 0)
+                # "fail:x:t6": refused once the virtual clock has reached 6 s (a "tick" thread moves it)
+                w.env.refuse[f"{origin}.example"] = next((int(o[1:]) for o in opts if o.startswith("g")), None) or next((float(o[1:]) for o in opts if o.startswith("t")), 0)
             if kind == "held":
                 warm.append((f"t{i}", kind, f"{tok}@{origin}", None))
             elif "w" in opts:
@@ -139,7 +140,7 @@ class ThreadHarness:
         sig = {"harness": "threads", "ct": ct}
         desc = f"ct={ct} threads={self.threads} N={self.mc} keepalive={self.mk} granularity={self.granularity}"
 
-        own_kinds = {"C04": ("limit-list", "limit-open"), "C06": ("stream-left-open", "evicted-stream-open")}.get(self.prefix)
+        own_kinds = {"C04": ("limit-list", "limit-open"), "C06": ("stream-left-open",), "C05": ("request-still-counted",)}.get(self.prefix)
 
         def viol(kind, msg, **x):
             if own_kinds is not None and kind not in own_kinds:
